@@ -16,11 +16,13 @@ ClkOk == clk'.run = P.clk.run /\ clk'.links = {P.clk.links[k] : k \in 1..Len(P.c
          /\ (clk'.run => clk'.src = P.clk.src)
 QueueOk == {t \in Ids : QProj(trx'[t].q) # P.trx[t].q} = {}
 HopOk == {t \in Ids : trx'[t].fh # P.trx[t].fh} = {}
-Rest(s) == [f \in (DOMAIN s) \ {"run", "fh", "q"} |-> s[f]]
+Rest(s) == [f \in (DOMAIN s) \ {"run", "fh", "q", "drop", "muted"} |-> s[f]]
 RestOk == {t \in Ids : Rest(trx'[t]) # Rest(P.trx[t])} = {}
+DropOk == {t \in Ids : trx'[t].drop # P.trx[t].drop \/ trx'[t].muted # P.trx[t].muted} = {}
 ProjOk == /\ Tag("C12.running-state", RunOk) /\ Tag("C12.clock-links", ClkOk)
           /\ Tag("C03.queue", QueueOk)
           /\ Tag(IF \E t \in Ids : trx[t].run /\ ~trx'[t].run THEN "C12.poweroff-forgets-hopping" ELSE "C05.effect.hopping", HopOk)
+          /\ Tag("C18.drop-counter-and-mute", DropOk)
           /\ Tag("C05.effect", RestOk)
 
 ReplyOk(toks, r, raw) ==
